@@ -25,7 +25,8 @@ func init() {
 				"the previous list on each error edge. R4: the index conversion skips invalid entries and keeps converting the rest.",
 			NotCovered: "behaviour of the HTTP client under each fault kind; atomicity of renameio itself (trusted); disk-full and fsync semantics.",
 			Rules: map[string]string{"C13-R1": "download / replace protocol tables", "C13-R2": "who may mutate files",
-				"C13-R3": "commit only after success", "C13-R4": "invalid index entries skipped, not aborting"},
+				"C13-R3": "commit only after success", "C13-R4": "invalid index entries skipped, not aborting",
+				"C13-R5": "configuration wiring: each kind of list (rule lists, their index, blocked-service index, safe search) gets its own size limit, staleness, timeout and URL"},
 		}})
 }
 
@@ -176,6 +177,21 @@ func c13Commit(c *an.Ctx, fn *ssa.Function, what string, commit ssa.Instruction,
 }
 
 func runC13(c *an.Ctx) {
+	// ---- R5: the size limit, staleness and timeout of each kind of list reach the downloader built for that kind
+	c.Floor("C13-R5", 12)
+	const fs = "filter/filterstorage."
+	checkFieldMap(c, "C13-R5", fs+"New", "filter/filterstorage.Default", map[string]string{
+		"ruleListMaxSize": ".RuleLists.MaxSize", "ruleListStaleness": ".RuleLists.Staleness", "ruleListRefreshTimeout": ".RuleLists.RefreshTimeout"})
+	checkFieldMap(c, "C13-R5", fs+"(*Default).addRuleList", "filter/internal/refreshable.Config", map[string]string{
+		"MaxSize": ".ruleListMaxSize", "Staleness": ".ruleListStaleness", "Timeout": ".ruleListRefreshTimeout", "URL": ".url"})
+	checkFieldMap(c, "C13-R5", fs+"(*Default).initRuleListRefr", "filter/internal/refreshable.Config", map[string]string{
+		"MaxSize": ".IndexMaxSize", "Staleness": ".IndexStaleness", "Timeout": ".IndexRefreshTimeout", "URL": ".IndexURL"})
+	checkFieldMap(c, "C13-R5", fs+"(*Default).initBlockedServices", "filter/internal/refreshable.Config", map[string]string{
+		"MaxSize": ".IndexMaxSize", "Staleness": ".IndexStaleness", "Timeout": ".IndexRefreshTimeout", "URL": ".IndexURL"})
+	checkFieldMap(c, "C13-R5", "filter/hashprefix.NewFilter", "filter/internal/refreshable.Config", map[string]string{
+		"MaxSize": ".MaxSize", "Staleness": ".Staleness", "Timeout": ".RefreshTimeout", "URL": ".URL", "CachePath": ".CachePath"})
+	checkFieldMap(c, "C13-R5", fs+"newSafeSearch", "filter/internal/refreshable.Config", map[string]string{
+		"MaxSize": ".MaxSize", "Staleness": ".Staleness", "Timeout": ".RefreshTimeout", "URL": ".URL"})
 	if n := sharedLoopCompleteness(c, "C13-R4", "filter/filterstorage.", "filter/internal/serviceblock."); n > 0 {
 		c.Ok("C13-R4", "element-wise loops", token.NoPos, "%d range loops of the index conversions examined: no invalid entry ends a conversion early", n)
 	}
